@@ -1,14 +1,69 @@
 import Crv.Driver.Util
-/-! Line-protocol driver for stream `lock` (stub: every op is `bad-op` until the model is wired in). -/
-namespace Crv.Driver.Lock
+import Crv.Locks
+import Crv.Generated.Locks
+/-!
+Line-protocol driver for stream `lock` (C13). Stateless: every answer is computed from the lock
+programs regenerated from /repo (`Crv.Generated.sys`).
 
-/-- Model state carried between the lines of this stream. -/
+  lock check wf|consistent|ordered|noSelfAcquire          → ok | fail
+  lock lockset <field name>                                → ok | fail      (some lock class guards every conflicting access)
+  lock admits <prog> <lock> <r|w> <same|other> <blocks|returns> → yes | no
+      a thread running <prog> alone while the environment holds <lock> in the given mode on the entry the
+      thread works on (`same`) or on another entry (`other`): can it block on that lock / can it return?
+  lock nesting                                             → held>requested pairs, sorted
+-/
+namespace Crv.Driver.Lock
+open Crv.Locks Crv.Generated
+
 structure State where
   dummy : Unit := ()
 
 def init : State := {}
 
-/-- One line (already split into words, stream tag removed) → new state and the answer line. -/
-def step (s : State) (ws : List String) : State × String := (s, "bad-op")
+def okFail (b : Bool) : String := if b then "ok" else "fail"
+
+def idxOf? (l : List String) (s : String) : Option Nat :=
+  let i := l.idxOf s
+  if i < l.length then some i else none
+
+/-- does acquiring class `l` in mode `m` conflict with the environment holding `l0` in mode `m0`? -/
+def conflicts (l0 : Nat) (m0 : Mode) (n : Node) : Bool :=
+  match n.instr with
+  | .acq l m => l == l0 && (m0 == .w || m == .w)
+  | _ => false
+
+def admits (P : Prog) (l0 : Nat) (m0 : Mode) (same : Bool) (observed : String) : Option Bool :=
+  let relevant := same || sys.lscope l0 != .ent
+  let confl : Node → Bool := fun n => relevant && conflicts l0 m0 n
+  match observed with
+  | "blocks" => some (P.pathTo (fun _ => false) confl).isSome
+  | "returns" => some (P.pathTo confl (fun n => n.instr == .ret)).isSome
+  | _ => none
+
+def step (s : State) (ws : List String) : State × String :=
+  match ws with
+  | ["check", "wf"] => (s, okFail sys.wf)
+  | ["check", "consistent"] => (s, okFail sys.consistent)
+  | ["check", "ordered"] => (s, okFail sys.ordered)
+  | ["check", "noSelfAcquire"] => (s, okFail sys.noSelfAcquire)
+  | ["lockset", f] =>
+    match idxOf? fieldNames f with
+    | some fi => (s, okFail ((List.range lockNames.length).any fun g => sys.locksetField g fi))
+    | none => (s, "bad-op")
+  | ["admits", p, l, m, e, obs] =>
+    match idxOf? progNames p, idxOf? lockNames l with
+    | some pi, some li =>
+      let mode? : Option Mode := if m = "r" then some .r else if m = "w" then some .w else none
+      let same? : Option Bool := if e = "same" then some true else if e = "other" then some false else none
+      match sys.progs[pi]?, mode?, same? with
+      | some P, some m0, some same =>
+        (match admits P li m0 same obs with
+         | some b => (s, if b then "yes" else "no")
+         | none => (s, "bad-op"))
+      | _, _, _ => (s, "bad-op")
+    | _, _ => (s, "bad-op")
+  | ["nesting"] =>
+    (s, ",".intercalate (lockNesting.map fun e => lockNames.getD e.1 "?" ++ ">" ++ lockNames.getD e.2 "?"))
+  | _ => (s, "bad-op")
 
 end Crv.Driver.Lock
